@@ -410,23 +410,26 @@ func checkC16(c *Ctx) {
 				r.OK("C16.4", "recvLoop: every exit from stream.Read offers buffer[:n] for delivery, is a heartbeat, or has n==0", rd.Pos(), fmt.Sprintf("%d consumer(s)", nc))
 			}
 			// heartbeat filter precedes delivery
-			var sel ssa.Instruction
-			eachInstr(f, func(in ssa.Instruction) {
-				if s, ok := in.(*ssa.Select); ok {
+			// (the hand-over itself may sit in a helper of the package: the guard then counts at the call in recvLoop)
+			sends := findInstrDeep(f, func(l located) bool {
+				if s, ok := l.call.(*ssa.Select); ok {
 					for _, st := range s.States {
 						if st.Dir == 1 && strings.HasSuffix(pathOf(st.Chan), ".recvCh") {
-							sel = in
+							return true
 						}
 					}
 				}
-				if s, ok := in.(*ssa.Send); ok && strings.HasSuffix(pathOf(s.Chan), ".recvCh") {
-					sel = in
+				if s, ok := l.call.(*ssa.Send); ok && strings.HasSuffix(pathOf(s.Chan), ".recvCh") {
+					return true
 				}
-			})
-			if sel == nil {
+				return false
+			}, 2)
+			if len(sends) == 0 {
 				r.Unk("C16.4", "recvLoop: delivery to recvCh", f.Pos(), fnName(f), "send not found")
 			} else {
-				g := guardedM(f, sel, func(cnd string, pol bool) bool { return !pol && strings.HasPrefix(cnd, "bytes.Equal(c.hb, ") })
+				sl := sends[len(sends)-1]
+				sel := sl.site()
+				g := guardedDeepM(sl, func(cnd string, pol bool) bool { return !pol && strings.HasPrefix(cnd, "bytes.Equal(c.hb, ") })
 				r.Check(g, "C16.4", "recvLoop: delivery only for messages that are not the heartbeat", sel.Pos(), fnName(f), "dominated by !bytes.Equal(c.hb, buffer[:n])", "keep-alive heartbeats can surface as data on the reader's side")
 			}
 		}
